@@ -28,27 +28,35 @@ def has(terms, t):
     return t in terms
 
 
+def subterms(t):
+    """direct sub-terms of a term"""
+    if not isinstance(t, tuple):
+        return []
+    k = t[0]
+    if k == "f":
+        return [t[1]]
+    if k == "lookup":
+        return [t[1], t[2]]
+    if k == "call":
+        return [a for a in t[2] if a is not None]
+    return []
+
+
 def derived_from(terms, base):
     """some term mentions `base` as a sub-term"""
     def rec(t):
         if t == base:
             return True
-        if isinstance(t, tuple):
-            return any(rec(x) for x in t[1:] if isinstance(x, tuple)) or (t[0] == "call" and any(rec(a) for a in t[2] if a is not None))
-        return False
+        return any(rec(x) for x in subterms(t))
     return any(rec(t) for t in terms)
 
 
 def mentions_call(terms, callee_suffix, base=None):
     def rec(t):
-        if isinstance(t, tuple):
-            if t[0] == "call" and t[1].endswith(callee_suffix):
-                if base is None or any(a is not None and derived_from({a}, base) for a in t[2]):
-                    return True
-            if t[0] == "call":
-                return any(rec(a) for a in t[2] if a is not None)
-            return any(rec(x) for x in t[1:] if isinstance(x, tuple))
-        return False
+        if isinstance(t, tuple) and t[0] == "call" and t[1].endswith(callee_suffix):
+            if base is None or any(derived_from({a}, base) for a in t[2] if a is not None):
+                return True
+        return any(rec(x) for x in subterms(t))
     return any(rec(t) for t in terms)
 
 
@@ -107,9 +115,11 @@ def _run(chk, prog):
 
         def after_all_paths(ev_from, targets):
             """every path from the normal continuation of ev_from to a return passes one of targets"""
-            succ = b.succ()[ev_from[6]]
             tb = {t[6] for t in targets}
             if ev_from[6] in tb:
+                return True
+            succ = [x for x in b.succ()[ev_from[6]] if x not in tb]
+            if not succ:
                 return True
             return b.path_avoiding(succ, tb, rets) is None
 
@@ -119,7 +129,7 @@ def _run(chk, prog):
                 continue
             seg = e[1].split("::")[-1]
             aty = e[7][0] if len(e) > 7 and e[7] else "?"
-            takes_mut = aty.startswith("&mut") or aty == "?"
+            takes_mut = bool(re.match(r"&mut (std::vec::Vec|\[)", aty)) or aty == "?"
             key = "%s::%s" % (b.id, seg)
             if seg in GROW:
                 is_mut = True
@@ -165,7 +175,7 @@ def _run(chk, prog):
                             continue
                         # the block computing get_name(removed): every path from there to return must pass the remove
                         gn = [g for g in evs if g[1].endswith("get_name") and g[6] != m[6] and b.dominates(e[6], g[6]) and b.dominates(g[6], m[6])]
-                        start = gn[-1] if gn else e
+                        start = gn[0] if gn else e
                         if b.dominates(e[6], m[6]) and after_all_paths(start, [m]):
                             ok = True
                 if not ok:
